@@ -409,7 +409,8 @@ static void noise(vh::Rng& g)
 			if (f == 0) { std::string t = rm::toTimbuk(x, al); static const char* bad[] = {"Ops s0:zero s1:1\n", "Ops s0: s1:\n", "Ops s0:99999999999999999999\n", "Ops\nAutomaton\n", "Ops s0:0\nAutomaton A\nStates q0:x\nFinal States q0:\nTransitions\ns0 -> \n"};
 				size_t eol = t.find('\n'); t = std::string(bad[g.below(5)]) + t.substr(eol + 1); R->count("noise:malformed-load"); Aut z; z.LoadFromString(parser(), t); }
 			else if (f == 1) { std::string t = rm::toTimbuk(x, al); t.resize(g.below(t.size() + 1)); R->count("noise:truncated-load"); Aut z; z.LoadFromString(parser(), t); ExplicitFiniteAut w; w.LoadFromString(parser(), t); }
-			else if (f == 2 && !junk.empty()) { R->count("noise:collapse-with-partial-map"); Aut::StateToStateMap m; Aut c = junk[g.below(junk.size())]->CollapseStates(m); (void)c; }
+			else if (f == 2 && !junk.empty()) { R->count("noise:collapse-with-partial-map"); Aut& victim = *junk[g.below(junk.size())]; Aut::StateToStateMap m; for (auto q : victim.GetUsedStates()) if (g.chance(1, 2)) m[q] = q + 100;   // refused somewhere in the middle of a rule
+				Aut c = victim.CollapseStates(m); (void)c; }
 			else if (f == 3) { RFA w = gen::randLiveFA(g, 5, 8, 2), v = gen::randLiveFA(g, 4, 6, 2); ExplicitFiniteAut p = loadText<ExplicitFiniteAut>(faToTimbuk(w, 2)), q = loadText<ExplicitFiniteAut>(faToTimbuk(v, 2));
 				R->count("noise:nfa-activity"); ExplicitFiniteAut u = ExplicitFiniteAut::Union(p, q), r = p.Reverse(); InclParam ip; ip.SetAlgorithm(InclParam::e_algorithm::antichains); (void)ExplicitFiniteAut::CheckInclusion(p, q, ip); }
 			else if (f == 4) { Alpha b2; b2.rank = {0, 0, 1, 2}; RTA y = gen::randProductiveTA(g, b2, gen::numbering(g, g.range(1, 4), 0), g.range(1, 6));
@@ -431,6 +432,14 @@ static void caseC11det(vh::Rng& g)
 		CaseAlphabet ca(al); Aut A = mkExpl(a, ca), B = mkExpl(b, ca);
 		R->phase("observe 1"); Observation o1 = observeOps(A, B, ca, withCompl, light, heavy);
 		R->phase("noise"); noise(g);
+		if (g.chance(1, 2))
+		{	// the last thing before the second observation is a call the library refuses (partial state map, malformed text)
+			R->phase("noise: refused call last"); R->count("noise:refused-call-last");
+			try { Alpha al2 = gen::randAlpha(g, 3); CaseAlphabet ca2(al2); RTA x = gen::randProductiveTA(g, al2, gen::numbering(g, g.range(2, 5), 0), g.range(2, 8)); Aut X = mkExpl(x, ca2);
+			      if (g.chance(2, 3)) { Aut::StateToStateMap m; for (auto q : X.GetUsedStates()) if (g.chance(1, 2)) m[q] = q + 100; Aut c = X.CollapseStates(m); (void)c; }
+			      else { Aut z; z.LoadFromString(parser(), "Ops s0:zero\nAutomaton A\nStates q0\nFinal States q0\nTransitions\ns0 -> q0\n"); } }
+			catch (std::exception&) { R->count("noise:call-failed-with-exception"); }
+		}
 		R->phase("observe 2 (same objects)"); Observation o2 = observeOps(A, B, ca, withCompl, light, heavy);
 		// equal operands built afresh, rules inserted in another order
 		std::vector<RRule> ra(a.rules.begin(), a.rules.end()), rb(b.rules.begin(), b.rules.end()); std::shuffle(ra.begin(), ra.end(), g); std::shuffle(rb.begin(), rb.end(), g);
